@@ -152,8 +152,17 @@ func vc_C13_normal() {
 	e1 := t[1].Sub(t[0])
 	e2 := t[2].Sub(t[0])
 	cr := e1.Cross(e2)
-	vfAssume(cr.Length2() >= 1e-6) // non-degenerate
-	vfAssume(cr.Length2() <= 1e6)
+	// non-degenerate: any positive area, however small (two size classes as a case split)
+	if vfCase("size", 2) == 0 {
+		vfAssume(cr.Length2() >= 1e-6)
+		vfAssume(cr.Length2() <= 1e6)
+	} else {
+		vfAssume(cr.Length2() > 0)
+		vfAssume(cr.Length2() < 1e-6)
+		for _, c := range []float64{ax, ay, az, bx, by, bz, cx, cy, cz} {
+			vfAssume(vfAnd(c >= -1, c <= 1))
+		}
+	}
 	n := t.Normal()
 	tol := vfTol(1e-6, 1e-7)
 	vfReach("normal")
